@@ -1133,6 +1133,10 @@ func wrapAny(val Node, targetType *Type) Node {
 	if targetType == GENERIC_ARRAY || targetType == GENERIC_MAP { // generic builtins
 		return val
 	}
+	if group, ok := val.(*GroupExpression); ok { // parenthesised literal, e.g. ([1 2])
+		group.Expr = wrapAny(group.Expr, targetType)
+		return group
+	}
 	if valType == EMPTY_ARRAY {
 		switch v := val.(type) {
 		case *ArrayLiteral:
